@@ -33,6 +33,11 @@ type Clause struct {
 	assume bool // "assume"-style trusted clause (listed in evidence)
 }
 
+type GuardClause struct {
+	when *Clause
+	spec *Clause
+}
+
 type LoopContract struct {
 	steps      []*Clause // per-iteration postconditions: old() = state at the head of the same iteration
 	invariants []*Clause
@@ -50,6 +55,7 @@ type FuncContract struct {
 	modifies []*Clause // expressions naming pointers / slices whose targets may change
 	modAll   bool      // modifies *
 	callbacks []*Clause // callback <param> preserves <expr>
+	guards   map[int][]*GuardClause // if#n guard [when P ::] spec : the if condition is equivalent to spec (under P)
 	loops    map[int]*LoopContract
 	closures map[int]*FuncContract
 	trusted  bool // body not verified; contract assumed (listed)
@@ -229,6 +235,24 @@ func installUniverse() {
 		types.Universe.Insert(types.NewFunc(token.NoPos, nil, "old", sig))
 	}
 	_ = types.NewSlice(types.Typ[types.Byte])
+	// ghostOf[T any](name string, args ...any) T : uninterpreted, state-independent observer with a typed result
+	{
+		tn := types.NewTypeName(token.NoPos, nil, "T", nil)
+		tp := types.NewTypeParam(tn, anyT)
+		sig := types.NewSignatureType(nil, nil, []*types.TypeParam{tp},
+			types.NewTuple(types.NewVar(token.NoPos, nil, "name", types.Typ[types.String]), types.NewVar(token.NoPos, nil, "args", types.NewSlice(anyT))),
+			types.NewTuple(types.NewVar(token.NoPos, nil, "", tp)), true)
+		types.Universe.Insert(types.NewFunc(token.NoPos, nil, "ghostOf", sig))
+	}
+	// cur[T any](x T) T : inside old(...), evaluate x in the current state
+	{
+		tn := types.NewTypeName(token.NoPos, nil, "T", nil)
+		tp := types.NewTypeParam(tn, anyT)
+		sig := types.NewSignatureType(nil, nil, []*types.TypeParam{tp},
+			types.NewTuple(types.NewVar(token.NoPos, nil, "x", tp)),
+			types.NewTuple(types.NewVar(token.NoPos, nil, "", tp)), false)
+		types.Universe.Insert(types.NewFunc(token.NoPos, nil, "cur", sig))
+	}
 	mk("forall", []types.Type{anyT}, boolT, false)
 	mk("exists", []types.Type{anyT}, boolT, false)
 	mk("fresh", []types.Type{anyT}, boolT, false)
@@ -250,6 +274,8 @@ func installUniverse() {
 	mk("mathmod", []types.Type{intT, intT}, intT, false)
 	mk("pure", []types.Type{anyT}, anyT, false)
 	mk("b2i", []types.Type{boolT}, intT, false)
+	mk("before", []types.Type{anyT, anyT}, boolT, false) // object *p lies entirely below object *q in memory (allocated earlier)
+	mk("allocated", []types.Type{anyT}, boolT, false)
 	mk("sameMapExcept", []types.Type{anyT, types.NewSlice(anyT)}, boolT, true) // map m equals old(m) except at the given keys
 	mk("ggets", []types.Type{types.Typ[types.String], anyT}, types.Typ[types.String], false)
 	mk("sameBlock", []types.Type{anyT, anyT}, boolT, false)
@@ -271,12 +297,12 @@ func installUniverse() {
 // ---------------------------------------------------------------------------------------
 // Contract text.
 
-var clauseKinds = map[string]bool{"callback": true, "step": true, "requires": true, "ensures": true, "invariant": true, "decreases": true,
+var clauseKinds = map[string]bool{"guard": true, "callback": true, "step": true, "requires": true, "ensures": true, "invariant": true, "decreases": true,
 	"modifies": true, "props": true, "trusted": true, "pure": true, "inline": true, "unroll": true, "lemma": true,
 	"assume": true, "nopanic": true, "heapframe": true}
 
 var headRe = regexp.MustCompile(`^func\s+(.+)$`)
-var clauseRe = regexp.MustCompile(`^(?:(loop|closure)#(\d+)\s+)?([a-z]+)(?:\[([A-Za-z0-9, ]+)\])?(?:\s+(.*))?$`)
+var clauseRe = regexp.MustCompile(`^(?:(loop|closure|if)#(\d+)\s+)?([a-z]+)(?:\[([A-Za-z0-9, ]+)\])?(?:\s+(.*))?$`)
 
 type rawClause struct {
 	scope   string // "", "loop", "closure"
@@ -975,6 +1001,23 @@ func loopsOf(body ast.Node) []ast.Stmt {
 	return out
 }
 
+// ifsOf lists if statements of a body in source order (else-if chains count separately), not descending into function literals.
+func ifsOf(body ast.Node) []*ast.IfStmt {
+	var out []*ast.IfStmt
+	ast.Inspect(body, func(n ast.Node) bool {
+		switch s := n.(type) {
+		case *ast.FuncLit:
+			if ast.Node(s) != body {
+				return false
+			}
+		case *ast.IfStmt:
+			out = append(out, s)
+		}
+		return true
+	})
+	return out
+}
+
 func closuresOf(body ast.Node) []*ast.FuncLit {
 	var out []*ast.FuncLit
 	ast.Inspect(body, func(n ast.Node) bool {
@@ -1057,6 +1100,40 @@ func (p *Program) fillContract(fc *FuncContract, clauses []*rawClause, body *ast
 			}
 			rc.sub.where = rc.where
 			closureClauses[rc.ord] = append(closureClauses[rc.ord], rc.sub)
+			continue
+		case "if":
+			ifs := ifsOf(body)
+			if rc.ord < 1 || rc.ord > len(ifs) {
+				p.bindIssues = append(p.bindIssues, bindIssue{fc.key, fmt.Sprintf("%s: %s has no if#%d", rc.where, fc.key, rc.ord)})
+				continue
+			}
+			if rc.sub.kind != "guard" {
+				return fmt.Errorf("%s: only `guard` clauses are allowed on if#n", rc.where)
+			}
+			ifs0 := ifs[rc.ord-1]
+			pos := ifs0.Body.Lbrace // scope just before the body: the init statement's variables are visible
+			text := rc.sub.text
+			var whenCl *Clause
+			if idx := topLevelIndex(text, "::"); idx >= 0 && strings.HasPrefix(strings.TrimSpace(text), "when ") {
+				w := &rawClause{kind: "guard", props: rc.sub.props, text: strings.TrimSpace(strings.TrimPrefix(strings.TrimSpace(text[:idx]), "when "))}
+				cl, err := p.checkClause(fc, w, rc.where, pos)
+				if err != nil {
+					p.bindIssues = append(p.bindIssues, bindIssue{fc.key, err.Error()})
+					continue
+				}
+				whenCl = cl
+				text = strings.TrimSpace(text[idx+2:])
+			}
+			sp := &rawClause{kind: "guard", props: rc.sub.props, text: text}
+			cl, err := p.checkClause(fc, sp, rc.where, pos)
+			if err != nil {
+				p.bindIssues = append(p.bindIssues, bindIssue{fc.key, err.Error()})
+				continue
+			}
+			if fc.guards == nil {
+				fc.guards = map[int][]*GuardClause{}
+			}
+			fc.guards[rc.ord] = append(fc.guards[rc.ord], &GuardClause{when: whenCl, spec: cl})
 			continue
 		case "loop":
 			if rc.ord < 1 || rc.ord > len(loops) {
